@@ -466,7 +466,12 @@ class USBResetSequencer(Elaboratable):
                     # should re-initialize anyway). Move to the HS reset detect sequence.
                     with m.Else():
                         m.d.comb += self.bus_reset.eq(1)
-                        m.next = 'START_HS_DETECTION'
+
+                        # Only attempt a high-speed handshake if we're not restricted to LS/FS.
+                        with m.If(~self.low_speed_only & ~self.full_speed_only):
+                            m.next = 'START_HS_DETECTION'
+                        with m.Else():
+                            m.next = 'IS_LOW_OR_FULL_SPEED'
 
 
             # SUSPEND -- our device has entered USB suspend; we'll now wait for either a
